@@ -6,7 +6,7 @@ from concurrent.futures import ThreadPoolExecutor
 from vlib import *
 
 STD_FORKS = ["Frontier", "Homestead", "Tangerine", "Spurious", "Byzantium", "Constantinople", "Petersburg", "Istanbul", "Berlin", "London", "Merge", "Shanghai"]
-OWN = {"C01": {"result"}, "C02": {"gas"}, "C18": {"stream", "tracerout"}}
+OWN = {"C01": {"result"}, "C02": {"gas"}, "C18": {"stream", "tracerout"}, "C07": {"treeshape"}, "C08": {"treecontent", "treeshape"}}
 
 
 def plan(prop, tier):
@@ -15,6 +15,8 @@ def plan(prop, tier):
         return dict(n=500 if q else 6000, matrix=10 if q else 1, sweep=0, tracers_every=0, forks=STD_FORKS, limit=3000, batches=8 if q else 16)
     if prop == "C02":
         return dict(n=250 if q else 2500, matrix=30 if q else 3, sweep=12 if q else 60, tracers_every=0, forks=STD_FORKS, limit=3000, batches=8 if q else 16)
+    if prop in ("C07", "C08"):
+        return dict(n=400 if q else 5000, matrix=300 if q else 20, sweep=0, tracers_every=0, forks=STD_FORKS + ["Cancun"], limit=3000, batches=8 if q else 16)
     return dict(n=300 if q else 3000, matrix=60 if q else 8, sweep=2, tracers_every=2, forks=STD_FORKS, limit=3000, batches=8 if q else 16)
 
 
@@ -39,6 +41,12 @@ def validate(batch, workdir):
 def check(prop, tier):
     v = Verdict(prop, tier)
     build_harness()
+    run(v, prop, tier)
+    return v.finish()
+
+
+def run(v, prop, tier):
+    """Record, validate with StepTrace.tla, fold into the verdict (shared by C01 C02 C18 and the tree part of C07 C08)."""
     pl = plan(prop, tier)
     work = tempfile.mkdtemp(prefix="vtrace.")
     try:
@@ -81,21 +89,20 @@ def check(prop, tier):
                 v.drift.append("%s differs outside %s's projection: %s" % (sorted(comps), prop, detail[:300]))
     if lines != rep["events"]:
         raise InfraError("TLC consumed %d lines, recorder wrote %d" % (lines, rep["events"]))
-    for need in ("steps", "gascont", "constgas", "memgas", "callret", "results"):
+    for need in ("steps", "gascont", "constgas", "memgas", "callret", "results", "nodes", "refused", "trees"):
         if cnt.get(need, 0) == 0:
             raise InfraError("rule coverage: '%s' never fired - generator too weak" % need)
-    v.cov["traces_validated_against_impl"] = rep["runs"]
-    v.cov["evaluations"] = rep["runs"] * 2
-    v.cov["distinct_nontrivial"] = rep["programs"]
-    v.cov["samples"] = rep.get("sample") or ["(none)"]
+    v.cov["traces_validated_against_impl"] += rep["runs"]
+    v.cov["evaluations"] += rep["runs"] * 2
+    v.cov["distinct_nontrivial"] += rep["programs"]
+    v.cov["samples"] = (v.cov["samples"] + (rep.get("sample") or []))[:4]
+    v.notes["trace_validation"] = {"plan": pl, "recorder": {k: rep[k] for k in ("programs", "runs", "events", "byName", "byFork", "byEntry", "sweepRuns", "distinctOpcodesExecuted")},
+                                   "rule_coverage": cnt, "mismatches_by_component": tot}
+    if prop in ("C07", "C08"):
+        return
     v.cov["rule"] = ("seeded generators (structured stack-balanced programs over the whole standard opcode set with boundary operands, calls of all kinds among 3 contracts, "
                      "precompiles 1-9, CREATE/CREATE2, SELFDESTRUCT, LOGs; byte-level mutations; raw bytes; opcode x operand-class matrix; gas-limit sweep around every "
                      "intermediate gas value) x 12 rule sets x 6 entry points x {tracer, no tracer + join points on with nothing bound, extra EIPs}; every paired run is one "
                      "trace validated by StepTrace.tla; distinct = programs; the counts in notes.rule_coverage say how often each rule fired")
-    v.notes["plan"] = pl
-    v.notes["recorder"] = {k: rep[k] for k in ("programs", "runs", "events", "byName", "byFork", "byEntry", "sweepRuns", "distinctOpcodesExecuted", "goSideQuickMismatch")}
-    v.notes["rule_coverage"] = cnt
-    v.notes["mismatches_by_component"] = tot
     v.assumptions += ["TLC 1.8", "go-ethereum v1.12.0 (module cache) is the oracle for values computed by ALU, hashing, environment and precompiles", "gas limits < 2^31 in validated runs",
                       "a step rule that rejects a step on which both implementations agree is reported as MODEL-DRIFT (specification gap), never as a violation"]
-    return v.finish()
